@@ -313,7 +313,7 @@ int cmd_serial(int argc, char** argv) {
 
 // api: <engine>\t<chart s-expression (ignored)>\t<ops>\t<hex SCXML text>
 //   ops (comma separated): s = one step(0); q = step until IDLE/FINISHED (cap 60); e:<name> = receive();
-//   i:<name> = enqueueInternal() from outside a step; c = cancel(); r = reset(); d = destroy the interpreter and create a new one; g = getState();
+//   i:<name> = enqueueInternal() from outside a step; k:<ms> = blocking step during which another thread enqueues internal ierr, a wake-up and external ext; c = cancel(); r = reset(); d = destroy the interpreter and create a new one; g = getState();
 //   T = from here on a token "@<ms>" precedes every bpe:/bc: token and follows every ac: token (monotonic clock)
 static void nameAnon(Interpreter& interp) {
 	int k = 0;
@@ -390,6 +390,22 @@ static std::string apiOne(const std::string& engine, const std::string& ops, con
 				// an internal event from outside a macrostep - what the timer thread does for a delayed <send target="#_internal">
 				// and for the error event of a delayed delivery that fails
 				interp->getImpl()->enqueueInternal(Event(op.substr(2), Event::INTERNAL));
+			} else if (op.size() > 2 && op[0] == 'k' && op[1] == ':') {
+				// kick: while this thread is inside a blocking step(), another thread - like the timer thread when the delivery of a
+				// delayed <send> fails - puts an internal event on the internal queue, then the empty wake-up event and right behind it
+				// an external event on the external queue. The step must come back for the internal event before it takes the external one.
+				int ms = atoi(op.substr(2).c_str());
+				Interpreter* ip = interp;
+				std::thread kicker([ip, ms]() {
+					std::this_thread::sleep_for(std::chrono::milliseconds(ms));
+					ip->getImpl()->enqueueInternal(Event("ierr", Event::INTERNAL));
+					ip->receive(Event());
+					ip->receive(Event("ext", Event::EXTERNAL));
+				});
+				InterpreterState s = interp->step(ms + 400);
+				rec.add(std::string("ret:") + retName(s));
+				rec.add(cfgToken(*interp));
+				kicker.join();
 			} else if (op.size() > 2 && op[0] == 'w' && op[1] == ':') {
 				// wait <ms>: lets timers fire / other threads run
 				std::this_thread::sleep_for(std::chrono::milliseconds(atoi(op.substr(2).c_str())));
